@@ -67,7 +67,7 @@ Local Arguments node_next : simpl never.
 Local Arguments node_parse : simpl never.
 
 (* Graph.Execute: the body of its `for { }`, one iteration = one step of the model's exec_loop *)
-Fixpoint fb (n : nat) : nat := match n with O => O | Datatypes.S m => Datatypes.S (Datatypes.S (Datatypes.S (Datatypes.S (Datatypes.S (fb m))))) end.
+Fixpoint fb (n : nat) : nat := match n with O => O | Datatypes.S m => Datatypes.S (fb m) end.
 
 Section ExecuteLoop.
 Variable g : graph.
